@@ -275,12 +275,14 @@ func (em *emitter) _emitExpr(expr ast.Expression, dstType reflect.Type, reg int8
 
 		exprType := em.typ(expr.Expr)
 		var src int8
+		em.operandDepth++
 		if ptr, ok := em.pointerOfArray(expr.Expr); ok {
 			// The slice refers to the array pointed by ptr.
 			src = em.emitExpr(ptr, em.typ(ptr))
 		} else {
 			src = em.emitExpr(expr.Expr, exprType)
 		}
+		em.operandDepth--
 		var low, high int8 = 0, -1
 		var kLow, kHigh = true, true
 		// emit low
@@ -688,14 +690,26 @@ func (em *emitter) emitCompositeLiteral(expr *ast.CompositeLiteral, reg int8, ds
 // emitIndex emits an index in register reg.
 func (em *emitter) emitIndex(v *ast.Index, reg int8, dstType reflect.Type) {
 	exprType := em.typ(v.Expr)
-	exprReg := em.emitExpr(v.Expr, exprType)
+	var exprReg int8
+	em.operandDepth++
+	if ptr, ok := em.pointerOfArray(v.Expr); ok {
+		// The element is the one of the array pointed by ptr, not of a
+		// copy of the array: it can be the operand of a field assignment.
+		exprReg = em.emitExpr(ptr, em.typ(ptr))
+	} else {
+		exprReg = em.emitExpr(v.Expr, exprType)
+	}
+	em.operandDepth--
 	var indexType reflect.Type
 	if exprType.Kind() == reflect.Map {
 		indexType = exprType.Key()
 	} else {
 		indexType = intType
 	}
+	depth := em.operandDepth
+	em.operandDepth = 0
 	index, kindex := em.emitExprK(v.Index, indexType)
+	em.operandDepth = depth
 	var elemType reflect.Type
 	if exprType.Kind() == reflect.String {
 		elemType = uint8Type
@@ -705,6 +719,7 @@ func (em *emitter) emitIndex(v *ast.Index, reg int8, dstType reflect.Type) {
 	pos := v.Pos()
 	if canEmitDirectly(elemType.Kind(), dstType.Kind()) {
 		em.fb.emitIndex(kindex, exprReg, index, reg, exprType, pos, true)
+		em.detachValue(reg, elemType)
 		return
 	}
 	em.fb.enterStack()
@@ -792,7 +807,9 @@ func (em *emitter) emitSelector(v *ast.Selector, reg int8, dstType reflect.Type)
 		expr = op.Expr
 	}
 	typ := em.typ(expr)
+	em.operandDepth++
 	exprReg := em.emitExpr(expr, typ)
+	em.operandDepth--
 	var field reflect.StructField
 	if typ.Kind() == reflect.Pointer {
 		field, _ = typ.Elem().FieldByName(v.Ident)
@@ -802,6 +819,7 @@ func (em *emitter) emitSelector(v *ast.Selector, reg int8, dstType reflect.Type)
 	index := em.fb.makeFieldIndex(field.Index)
 	if canEmitDirectly(field.Type.Kind(), dstType.Kind()) {
 		em.fb.emitField(exprReg, index, reg, dstType.Kind(), v.Pos())
+		em.detachValue(reg, field.Type)
 		return
 	}
 	// TODO: add enter/exit stack method calls.
@@ -965,11 +983,13 @@ func (em *emitter) emitUnaryOp(expr *ast.UnaryOperator, reg int8, regType reflec
 		// (where v is a slice or an addressable array)
 		case *ast.Index:
 			var expr int8
+			em.operandDepth++
 			if ptr, ok := em.pointerOfArray(operand.Expr); ok {
 				expr = em.emitExpr(ptr, em.typ(ptr))
 			} else {
 				expr = em.emitExpr(operand.Expr, em.typ(operand.Expr))
 			}
+			em.operandDepth--
 			index := em.emitExpr(operand.Index, intType)
 			pos := operand.Expr.Pos()
 			if canEmitDirectly(exprType.Kind(), regType.Kind()) {
@@ -1001,7 +1021,9 @@ func (em *emitter) emitUnaryOp(expr *ast.UnaryOperator, reg int8, regType reflec
 				expr = op.Expr
 			}
 			operandExprType := em.typ(expr)
+			em.operandDepth++
 			exprReg := em.emitExpr(expr, operandExprType)
+			em.operandDepth--
 			var field reflect.StructField
 			if operandExprType.Kind() == reflect.Pointer {
 				field, _ = operandExprType.Elem().FieldByName(operand.Ident)
